@@ -233,6 +233,10 @@ def run_check(pid, tier, seed, nproc=None, only=None):
     shards = mod.plan(tier, seed)
     if only is not None:
         shards = [s for i, s in enumerate(shards) if i in only]
+    if os.environ.get("VT_SHARDS"):
+        # diagnostic only (never set by a registered command): run the shards whose descriptor contains one of the given words
+        words = os.environ["VT_SHARDS"].split(",")
+        shards = [s for s in shards if any(w in repr(s) for w in words)]
     nproc = nproc or int(os.environ.get("VT_NPROC", "16"))
     nproc = max(1, min(nproc, len(shards)))
     results = []
